@@ -44,7 +44,7 @@ For each variant write, under {wt}/SEED/ (create the directory):
   - A_demo.py / B_demo.py : a small standalone program (run as `cd {wt}/python && PYTHONPATH={wt}/python /venv/bin/python ../SEED/A_demo.py`) that exits with status 1 and prints what went wrong when the variant is applied, and exits 0 on the unmodified code. It must demonstrate a violation of the property as stated (not just "output changed").
   - A_meta.json / B_meta.json : {{"property": "<id>", "title": "<one line>", "files": [...], "needs": "<what specific input / sequence / condition is needed for it to manifest>", "why_tests_pass": "<why the 30 existing tests do not notice>"}}
 
-Before finishing, VERIFY yourself for each variant: apply the diff on a clean tree, run the test suite (must pass), run the demo (must exit 1), revert, run the demo (must exit 0). Report in your final message, for A and B: the title, what it needs to manifest, and the verification results. Keep the final report short.
+Before finishing, VERIFY yourself for each variant: apply the diff on a clean tree, run the test suite (must pass), run the demo (must exit 1), revert, run the demo (must exit 0). Report in your final message, for A and B: the title, what it needs to manifest, and the verification results. Keep the final report short. Practical: keep EVERY reply and every single tool call short (write files in small pieces, never paste long lists back) - a reply longer than ~30k tokens aborts your session.
 
 
 Ideas already used (do not repeat):
